@@ -54,7 +54,7 @@ def _case(draw):
     spec['specials'] = specials
     sel = draw(st.lists(st.integers(0, D - 1), min_size=1, max_size=D, unique=True))
     route = draw(st.sampled_from(['rfi', 'rfi', 'rfi_mef', 'rfi_mef', 'transform']))
-    return dict(spec=spec, sel=sel, spell=[draw(st.booleans()) for _ in sel], route=route,
+    return dict(spec=spec, sel=sel, spell=[draw(st.sampled_from(['name', 'pos', 'neg', 'name', 'pos'])) for _ in sel], route=route,
                 m=[draw(st.floats(0.85, 1.25)) for _ in sel], b=[draw(st.floats(0.0, 7.0)) for _ in sel],
                 fxn=draw(st.sampled_from(['sqrt', 'pow', 'exp', 'log1p'])), p=draw(st.floats(0.5, 2.0)),
                 gate_channels=draw(st.sampled_from(['all', 'selected'])))
@@ -86,7 +86,8 @@ def check(case, obs):
     d = build(spec)
     names = list(d.channels)
     sel = case['sel']
-    chs = [names[j] if sp else j for j, sp in zip(sel, case['spell'])]
+    from pbt.props.c03 import _spell
+    chs = [_spell(j, sp, names, False) for j, sp in zip(sel, case['spell'])]
     route = case['route']
     curves = [_std_crv(m, b) for m, b in zip(case['m'], case['b'])]
     if route == 'transform':
